@@ -133,7 +133,7 @@ theorem invA_loop_started (s : St) (i : Nat) (q' : Quota) (ok : Bool) (heq : s.l
   cases ok <;> inv_auto
 
 theorem invA_loop_refused (s : St) (i : Nat) (heq : s.loop = .refused i) (h : InvA s) :
-    InvA (({ (s.enq i) with loop := .repushed i }).emit (.repush i)) := by
+    InvA (({ (s.enq i) with loop := .repushed i }).emit (.repush i s.now)) := by
   obtain ⟨np, own, excl, wg, dn, rt, rs, qk, gq, fresh⟩ := h
   inv_auto
 
